@@ -149,13 +149,22 @@ theorem yields_Dd (d : RAnsBitDec) : ∀ (k : Nat), Yields RAnsBitDec.nextBit d 
         | succ j ihj => simp only [Dd] at ihj ⊢; rw [ihj]
       rw [e]; exact this
 
+/-- the symbol loop: `k` symbols `E` -/
+def mainK (k : Nat) : ConnMain :=
+  { c2v := C k k, opp := Array.replicate (3 * k) inv, vc := V k, hole := Array.replicate (3 * k) true, stack := S k,
+    invalid := #[], numFaces := k, tags := T k }
+
+/-- the start face loop: `k` boundary configurations -/
+def startK (k : Nat) : ConnStart :=
+  { c2v := C k k, opp := Array.replicate (3 * k) inv, hole := Array.replicate (3 * k) true,
+    tags := T2 (if 1 < k then T k ||| tg_components_1 else T k) k, startBits := List.replicate k false }
+
 set_option maxRecDepth 100000 in
 set_option maxHeartbeats 4000000 in
-theorem connLoop_triangles (k : Nat) (tr : Trav) (hkind : tr.kind = 0) (hleg : tr.legacy = false) (hk1 : 1 ≤ k)
-    (hk31 : 3 * k < 2 ^ 31) (hsym : ∀ i, i < k → (decodeSymbolStd (RdS tr.sym i)).1 = 7)
-    (hsf : Yields RAnsBitDec.nextBit tr.startFace (List.replicate k false)) :
-    connLoop ⟨k, 3 * k, k, [], true⟩ tr = .ok (coK k) := by
-  unfold connLoop
+theorem connMain_triangles (k : Nat) (tr : Trav) (hkind : tr.kind = 0) (hk31 : 3 * k < 2 ^ 31)
+    (hsym : ∀ i, i < k → (decodeSymbolStd (RdS tr.sym i)).1 = 7) :
+    connMain ⟨k, 3 * k, k, [], true⟩ tr = .ok (mainK k) := by
+  unfold connMain
   dsimp only
   refine bind_forIn_total k _ _ _ (fun i s => s = G k tr i) _ ?_ ?_ ?_
   · rfl
@@ -174,44 +183,69 @@ theorem connLoop_triangles (k : Nat) (tr : Trav) (hkind : tr.kind = 0) (hleg : t
     have h8 : 3 * i + 1 < 3 * i + 1 + 1 + 1 := by omega
     have h9 : 3 * i + 2 < 3 * i + 1 + 1 + 1 := by omega
     simp [G, hkind, hs, C_size, V_size, h0, h1, h2, h3, Trav.valence, Trav.tracksValences, exTopoC, exTopoS, exTopoL, exTopoR, exTopoE,
-      wr, Eb.setLeftMost, inv, bind, Except.bind, pure, Except.pure,
+      wr, Eb.setLeftMost, inv, raise, bind, Except.bind, pure, Except.pure,
       Std.Legacy.Range.forIn_eq_forIn_range', Std.Legacy.Range.size, List.range'_succ]
     simp [h4, h5, h6, h7, h8, h9, V_size, C_size, h0, h1, h2, C, V, S, RdS, T, Array.setIfInBounds]
     rfl
   · intro s hs
     subst hs
-    simp (config := { maxSteps := 100000000 }) only [G, V_size, S_size, gt_iff_lt, Nat.lt_irrefl, ↓reduceIte, hleg, Bool.false_eq_true]
-    by_cases hk2 : 1 < k
-    · rw [if_pos hk2]
-      refine bind_forIn_total k _ _ _ (fun j s => s = G2 k tr (T k ||| tg_components_1) j) _ ?_ ?_ ?_
-      · simp only [G2, Nat.sub_zero, T2, Dd, List.replicate]
-      · intro j s hj hI
-        subst hI
-        refine ⟨_, ?_, rfl⟩
-        have e : k - j = (k - (j + 1)) + 1 := by omega
-        have hS : S (k - j) = (S (k - (j + 1))).push (3 * (k - (j + 1))) := by rw [e]; rfl
-        have hbit := yields_Dd tr.startFace k hsf j hj
-        simp [G2, hS, hbit, T2, Dd, List.replicate_succ, pure, Except.pure]
-      · intro s hs
-        subst hs
-        simp [G2, bind, Except.bind, pure, Except.pure]
-        rw [if_neg (by omega)]
-        exact congrArg Except.ok (coK_eq k _ (by rw [if_pos hk2]))
-    · rw [if_neg hk2]
-      refine bind_forIn_total k _ _ _ (fun j s => s = G2 k tr (T k) j) _ ?_ ?_ ?_
-      · simp only [G2, Nat.sub_zero, T2, Dd, List.replicate]
-      · intro j s hj hI
-        subst hI
-        refine ⟨_, ?_, rfl⟩
-        have e : k - j = (k - (j + 1)) + 1 := by omega
-        have hS : S (k - j) = (S (k - (j + 1))).push (3 * (k - (j + 1))) := by rw [e]; rfl
-        have hbit := yields_Dd tr.startFace k hsf j hj
-        simp [G2, hS, hbit, T2, Dd, List.replicate_succ, pure, Except.pure]
-      · intro s hs
-        subst hs
-        simp [G2, bind, Except.bind, pure, Except.pure]
-        rw [if_neg (by omega)]
-        exact congrArg Except.ok (coK_eq k _ (by rw [if_neg hk2]))
+    simp only [G, V_size, gt_iff_lt, Nat.lt_irrefl, ↓reduceIte]
+    rfl
+
+set_option maxRecDepth 100000 in
+set_option maxHeartbeats 4000000 in
+theorem connStart_triangles (k : Nat) (tr : Trav) (hleg : tr.legacy = false)
+    (hsf : Yields RAnsBitDec.nextBit tr.startFace (List.replicate k false)) :
+    connStart ⟨k, 3 * k, k, [], true⟩ tr (mainK k) = .ok (startK k) := by
+  unfold connStart
+  simp (config := { maxSteps := 100000000 }) only [mainK, S_size, gt_iff_lt, hleg, Bool.false_eq_true, ↓reduceIte]
+  by_cases hk2 : 1 < k
+  · simp only [hk2, ↓reduceIte]
+    refine bind_forIn_total k _ _ _ (fun j s => s = G2 k tr (T k ||| tg_components_1) j) _ ?_ ?_ ?_
+    · simp only [G2, Nat.sub_zero, T2, Dd, List.replicate]
+    · intro j s hj hI
+      subst hI
+      refine ⟨_, ?_, rfl⟩
+      have e : k - j = (k - (j + 1)) + 1 := by omega
+      have hS : S (k - j) = (S (k - (j + 1))).push (3 * (k - (j + 1))) := by rw [e]; rfl
+      have hbit := yields_Dd tr.startFace k hsf j hj
+      simp [G2, hS, hbit, T2, Dd, List.replicate_succ, pure, Except.pure]
+    · intro s hs
+      subst hs
+      simp [G2, startK, hk2, pure, Except.pure]
+  · simp only [hk2, ↓reduceIte]
+    refine bind_forIn_total k _ _ _ (fun j s => s = G2 k tr (T k) j) _ ?_ ?_ ?_
+    · simp only [G2, Nat.sub_zero, T2, Dd, List.replicate]
+    · intro j s hj hI
+      subst hI
+      refine ⟨_, ?_, rfl⟩
+      have e : k - j = (k - (j + 1)) + 1 := by omega
+      have hS : S (k - j) = (S (k - (j + 1))).push (3 * (k - (j + 1))) := by rw [e]; rfl
+      have hbit := yields_Dd tr.startFace k hsf j hj
+      simp [G2, hS, hbit, T2, Dd, List.replicate_succ, pure, Except.pure]
+    · intro s hs
+      subst hs
+      simp [G2, startK, hk2, pure, Except.pure]
+
+theorem connCompact_triangles (k : Nat) :
+    connCompact ⟨k, 3 * k, k, [], true⟩ (mainK k) (startK k) = .ok (coK k) := by
+  unfold connCompact
+  simp only [mainK, startK]
+  simp [V_size, raise, bind, Except.bind, pure, Except.pure]
+  rw [if_neg (by omega)]
+  exact congrArg Except.ok (coK_eq k _ rfl)
+
+set_option linter.unusedVariables false in
+theorem connLoop_triangles (k : Nat) (tr : Trav) (hkind : tr.kind = 0) (hleg : tr.legacy = false) (hk1 : 1 ≤ k)
+    (hk31 : 3 * k < 2 ^ 31) (hsym : ∀ i, i < k → (decodeSymbolStd (RdS tr.sym i)).1 = 7)
+    (hsf : Yields RAnsBitDec.nextBit tr.startFace (List.replicate k false)) :
+    connLoop ⟨k, 3 * k, k, [], true⟩ tr = .ok (coK k) := by
+  unfold connLoop
+  rw [connMain_triangles k tr hkind hk31 hsym]
+  show (connStart _ tr (mainK k) >>= fun s => connCompact _ (mainK k) s) = _
+  rw [connStart_triangles k tr hleg hsf]
+  exact connCompact_triangles k
+
 theorem Rd_succ (r : BitReader) : ∀ i, RdS r (i + 1) = RdS (decodeSymbolStd r).2 i
   | 0 => rfl
   | i+1 => by
